@@ -440,6 +440,10 @@ def _recipe(skel, rname, tier):
   sc = P.op_scopes(model)
   recs['only_last_op_SRQ8'] = [P.rule('^' + re.escape(sc[-1][2]) + '$', '*',
                                       'SRQ8')]
+  # an earlier static-range rule, then a weight-only catch-all that the
+  # activation-only ops cannot take (they keep the static-range rule)
+  recs['srq8_then_catchall_WO'] = [P.rule('(.*)', '*', 'SRQ8'),
+                                   P.rule('.*', '*', 'WO')]
   return recs[rname]
 
 
